@@ -1262,7 +1262,9 @@ PROPS = {
              rule='the search set of GSAP on its own: every transition of Bitset.tla (insert / delete / clear over positions around the 64-bit word boundaries, incl. re-use of the backing array after clear and downward growth) + seeded longer histories run on the real bitset through the VerifBitset hook; rules C12.bitset_members, C12.bitset_neighbours (set semantics)'),
         fam_parser('recordings: GSAP only, histories without Parse(nil), blocks <= 64 bytes, buffers <= 130 bytes, half of them with BufferSize <= WindowSize, several fills / Shrinks / Resets; rules C12.match_longest (every emitted match equals the brute-force longest previous match in the buffered data, clipped at the block end) and C12.literal_justified; plus buffers of 3-32 KiB (binary texts on which the suffix sort takes its rank-sort fall-backs) judged by C12.no_longer_match: counter-witnesses (position, earlier source, longer length) proposed by the harness and validated by TLC', dict(walks=0, go=[('parser-gsap', 260), ('parser-sa-ntl', 60), ('parser-gsap-big', 9)]), design=('GSAP.tla', 'GSAP_m.cfg', 'GSAP_T.cfg', 1500))]),
     'C11': fam_parser('recordings: OSAP only, flags 0 mostly, blocks <= 64 bytes, buffers <= 130 bytes, several blocks per fill (edge reuse), blocks after Shrink; rule C11.cost_optimal: BlockCost = OptCost (forward DP over literal and nearest-source match edges written in TLA+)', dict(walks=0, go=[('parser-osap', 170), ('parser-sa-ntl', 30), ('parser-osap-long', 10)]), design=('OSAP.tla', 'OSAP_q.cfg', 'OSAP_T.cfg', 1200)),
-    'C06': fam_dec('histories = random walks of Decoder.tla (API calls x writer fault schedule) + seeded Go-side histories with sizes around BufferSize-WindowSize / BufferSize, B < 2W, fault schedules and the retry protocol; C06 = no livelock / timeout event (no envelope action exists for them); liveness of the retry loops is model-checked (Terminates) on the design; non-trivial = distinct script with several flushes in one call, data larger than the free space, a refused or rejected block, or a writer fault'),
+    'C06': dict(run=run_multi, trace_module=None, parts=[
+        fam_dec('histories = random walks of Decoder.tla (API calls x writer fault schedule) + seeded Go-side histories with sizes around BufferSize-WindowSize / BufferSize, B < 2W, fault schedules and the retry protocol; C06 = no livelock / timeout event (no envelope action exists for them); liveness of the retry loops is model-checked (Terminates) on the design; non-trivial = distinct script with several flushes in one call, data larger than the free space, a refused or rejected block, or a writer fault'),
+        fam_dbuf('DecoderBuffer level (C06 speaks of every call on Decoder and DecoderBuffer): same recordings as C04 (TLC transition cover / walks of DecoderBufMC + seeded histories with attacker values: offset 0, lengths up to 2^32-1, sizes around BufferSize); rule C06.timeout: no public DecoderBuffer call outlives the per-call watchdog; non-trivial as for C04')]),
     'C07': dict(run=run_multi, trace_module=None, parts=[
         fam_dec('same recordings as C06; rule C07.refused: without a writer fault a Decoder call may stop only at a malformed sequence; non-trivial as for C06'),
         dict(run=run_e2e, trace_module='E2E_Trace', assumptions=DEC_ASSUME + PARSER_ASSUME[:2],
